@@ -67,7 +67,7 @@ func containsDot(s string) bool {
 func neighbour(rt *rapid.T, s string) string {
 	d := model.MustDec(s)
 	for i := 0; i < 8; i++ {
-		delta := rapid.SampledFrom([]string{"1", "-1", "0.5", "-0.25", "10", "0.001", "-100"}).Draw(rt, "delta")
+		delta := rapid.SampledFrom([]string{"1", "-1", "0.5", "-0.25", "10", "0.001", "-100", "0.000000476837158203125", "-0.0000152587890625", "0.0000000004656612873077392578125"}).Draw(rt, "delta")
 		nd := d.Add(model.MustDec(delta))
 		n := nd.Plain()
 		if nd.InRange() && (!open("F-FLOAT") || model.FloatExact(n)) {
@@ -80,7 +80,7 @@ func neighbour(rt *rapid.T, s string) string {
 	return "3"
 }
 
-const ruleC12 = "rapid: numerals of every notation class (small and large integers, leading zeros, trailing fractional zeros, binary and decimal fractions, exponent forms of both signs, negative zero, 17-38 significant digits, magnitude extremes - restricted to float64-round-trip-exact values while the open finding F-FLOAT applies) in attribute, set-member, comparison-operand and arithmetic-operand position: (a) conditions = <> < <= > >= BETWEEN IN contains(NS) between an attribute and a value that is the same number in another notation, a neighbour, or an unrelated numeral, against the exact-decimal reference evaluator; (b) SET a = x + y / x - y / a + :v and ADD with generated numerals against exact decimal arithmetic, comparing the entire item so that every untargeted number keeps its value; (c) histories on tables with number-typed hash and sort keys (Put / Get / Update / Query in both directions) against the tuple-keyed model. Non-trivial = case involving a numeral not in canonical plain form, or a value that is not exactly a float64; distinct = hash of the case."
+const ruleC12 = "rapid: numerals of every notation class (small and large integers, leading zeros, trailing fractional zeros, binary and decimal fractions, exponent forms of both signs, negative zero, 17-38 significant digits, magnitude extremes - restricted to float64-round-trip-exact values while the open finding F-FLOAT applies) in attribute, set-member, comparison-operand and arithmetic-operand position: (a) conditions = <> < <= > >= BETWEEN IN contains(NS) between an attribute and a value that is the same number in another notation, a neighbour, or an unrelated numeral, against the exact-decimal reference evaluator; (b) SET a = x + y / x - y / a + :v and ADD with generated numerals against exact decimal arithmetic, comparing the entire item so that every untargeted number keeps its value; (c) histories on tables with number-typed hash and sort keys, the key pool containing close neighbours (differences down to 2^-31) of its own members (Put / Get / Update / Query in both directions) against the tuple-keyed model. Non-trivial = case involving a numeral not in canonical plain form, or a value that is not exactly a float64; distinct = hash of the case."
 
 // TestC12 decides property C12.
 func TestC12(t *testing.T) {
@@ -206,6 +206,27 @@ func c12Keys(rt *rapid.T, st *stats.Collector) {
 	s := model.Schema{Table: "tbl", Hash: "pk", Range: "sk", Attrs: map[string]string{"pk": "N", "sk": rapid.SampledFrom([]string{"N", "N", "B"}).Draw(rt, "skType")}, Billing: "PAY_PER_REQUEST"}
 	o := avOpts(1, true)
 	g := newTgen(rt, s, o, rapid.IntRange(3, 6).Draw(rt, "poolSize"))
+	// twins of pool keys: one number part replaced by a close neighbour
+	// (differences down to 2^-31), the other part kept
+	seenKey := map[string]bool{}
+	for _, k := range g.keys {
+		seenKey[model.CanonItem(k)] = true
+	}
+	for i, nt := 0, rapid.IntRange(0, 3).Draw(rt, "keyTwins"); i < nt; i++ {
+		k := g.key(rt)
+		var numAttrs []string
+		for _, a := range []string{"pk", "sk"} {
+			if k[a].T == "N" {
+				numAttrs = append(numAttrs, a)
+			}
+		}
+		a := rapid.SampledFrom(numAttrs).Draw(rt, "twinAttr")
+		k[a] = model.Num(neighbour(rt, k[a].S))
+		if c := model.CanonItem(k); !seenKey[c] {
+			seenKey[c] = true
+			g.keys = append(g.keys, k)
+		}
+	}
 	w.pool[s.Table] = g.keys
 	fail := func(f *failure) {
 		if f != nil {
